@@ -81,6 +81,10 @@ namespace nmtools::index
                 auto r_shape_i = float(at(shape,spatial_i) + pad - ((at(kernel_size,spatial_i) - 1) * dilations + 1)) / at(stride,spatial_i) + 1;
                 if (static_cast<bool>(ceil_mode)) {
                     at(res,spatial_i) = math::constexpr_ceil(r_shape_i);
+                    // the last window must start inside the input (as in PyTorch), otherwise it is dropped
+                    if ((nm_index_t)(at(res,spatial_i) - 1) * (nm_index_t)at(stride,spatial_i) >= (nm_index_t)(at(shape,spatial_i) + pad)) {
+                        at(res,spatial_i) = at(res,spatial_i) - 1;
+                    }
                 } else {
                     at(res,spatial_i) = math::constexpr_floor(r_shape_i);
                 }
